@@ -6,6 +6,7 @@ Core-only so that it links as an executable.
 -/
 import Shutter.Drive.App
 import Shutter.Spec.SaveFile
+import Shutter.Drive.Events
 
 open Shutter
 
@@ -17,6 +18,7 @@ def dispatch (st : DState) (line : String) : DState × String :=
   | "APP" :: rest =>
     let (a, out) := Drive.App.step st.app rest
     ({ st with app := a }, out)
+  | "EV" :: rest => (st, Drive.Events.step rest)
   | "SAVE" :: rest => (st, SaveFile.driverStep rest)
   | _ => (st, "bad-model")
 
